@@ -241,6 +241,28 @@ func algebraCase(k cfg, reps int) harness.Case {
 	}}
 }
 
+// offLastCase: committees for which the number of t-subsets exceeds a thousand (where an
+// implementation may be tempted to thin out the cross-check): a key off the polynomial at the last,
+// the first and a middle position is still detected by everybody.
+func offLastCase(k cfg) harness.Case {
+	return harness.Case{ID: "off-polynomial/many-subsets/" + k.String(), Run: func(c *harness.C) {
+		all := cryptolib.IDs(k.n)
+		for _, dev := range []uint16{all[k.n-1], all[0], all[k.n/2]} {
+			c.Exec(fmt.Sprintf("[off-polynomial] %v dev %d (many subsets)", k, dev))
+			_, errs := cryptolib.DKG(k.be, k.n, k.t, 1, offPolynomial(k.be, dev), 300*time.Second)
+			c.Add("executions", 1)
+			c.Add("evaluations", 1)
+			for id, e := range errs {
+				if id != dev && e == nil {
+					c.Violation("off-polynomial-detected", "c18-off-polynomial-key-accepted:"+k.be, fmt.Sprintf("%v: party %d accepted although the key of party %d is off the common polynomial", k, id, dev), map[string]interface{}{"cfg": k.String(), "dev": dev})
+					break
+				}
+			}
+			c.Outcome(fmt.Sprintf("off-many|%v|%d", k, dev))
+		}
+	}}
+}
+
 func offCase(k cfg) harness.Case {
 	return harness.Case{ID: "off-polynomial/" + k.String(), Run: func(c *harness.C) {
 		// one component of the deviator's genuine key off the polynomial, at every position
@@ -351,6 +373,12 @@ func gen(c *harness.C) []harness.Case {
 		}
 		if nt[0] <= 3 || c.Thorough() {
 			cases = append(cases, rekeyCase(cfg{be: "ps", n: nt[0], t: nt[1]}))
+		}
+	}
+	if haveBLS {
+		cases = append(cases, offLastCase(cfg{be: "bls", n: 14, t: 4})) // C(14,4) = 1001
+		if c.Thorough() {
+			cases = append(cases, offLastCase(cfg{be: "bls", n: 13, t: 5}), offLastCase(cfg{be: "bls", n: 16, t: 4}))
 		}
 	}
 	// an off-polynomial key at the last position x the deadline landing at every look at the context
